@@ -85,7 +85,10 @@ Definition run (limit : option nat) (fresh : marker) (s : state) : option state 
 Definition delete (k : nat) (s : state) : state :=
   {| cur := cur s; arch := filter (fun p => negb (Nat.eqb (fst p) k)) (arch s) |}.
 
-Inductive op := Run (limit : option nat) | Delete (k : nat).
+(* the user removed report/ (or moved it out of the project directory) by hand: no current report is left, archives as they were *)
+Definition drop (s : state) : state := {| cur := None; arch := arch s |}.
+
+Inductive op := Run (limit : option nat) | Delete (k : nat) | Drop.
 
 (* histories: the n-th Run gets marker n (fresh by construction) *)
 Fixpoint exec (ops : list op) (next : marker) (s : state) : option state :=
@@ -93,6 +96,7 @@ Fixpoint exec (ops : list op) (next : marker) (s : state) : option state :=
   | [] => Some s
   | Run l :: r => match run l next s with Some s' => exec r (S next) s' | None => None end
   | Delete k :: r => exec r next (delete k s)
+  | Drop :: r => exec r next (drop s)
   end.
 
 (* canonical observation used by the correspondence check: archives sorted by key *)
@@ -115,4 +119,5 @@ Fixpoint exec_trace (ops : list op) (next : marker) (s : state) : list (option o
                   | None => [None]
                   end
   | Delete k :: r => Some (observe (delete k s)) :: exec_trace r next (delete k s)
+  | Drop :: r => Some (observe (drop s)) :: exec_trace r next (drop s)
   end.
